@@ -130,7 +130,7 @@ func (t *htmlTemplate) processTagStart(node *Node, tokenBuf *strings.Builder,
 	if tag == nil {
 		return data, ErrNilTag
 	}
-	tagName := strings.ToLower(tag.Name)
+	tagName := strings.TrimSuffix(strings.ToLower(tag.Name), "/") // <t:block/> 的 tag 名以 / 结尾
 	if tagName == t.manager.tagPrefix+tagNameBlock {
 		opt.noPrintToken = true // <t:block> ... </t:block>
 	}
